@@ -1,4 +1,4 @@
-SPECIFICATION Spec
+SPECIFICATION GenSpec
 CONSTANTS
   Names = {"alice"}
   Pws = {"Secret1", "secret1", "LONG"}
@@ -6,12 +6,16 @@ CONSTANTS
   ExtraCands = {"", "SECRET1", "Secret1 ", "wrong"}
   PermSets = {{}, {"ego.logon"}, {"ego.root"}, {"other"}, {"ego.logon", "other"}}
   InitFmts = {"bcrypt", "sha", "plain"}
-  InitCosts = {4, 12}
+  InitCosts = {4}
   Spellings = {"exact", "upper", "mixed", "padded", "ghost", "empty"}
   CandKinds = {"lit", "stored", "cyc", "braced", "hashof"}
   MaxVer = 2
-  Impl = "bcryptcyc"
-INVARIANTS TypeOK
-PROPERTIES ReplyRight AcceptanceKept UpgradeShape FailedWritesNothing
-VIEW View
+  Impl = "code"
+  Depth = 1
+  Budget = 0
+  Mode = "cells"
+  TableSp = {}
+  TableKinds = {}
+  TableLits = {}
+INVARIANTS Emit
 CHECK_DEADLOCK FALSE
